@@ -987,6 +987,9 @@ def builtin_attr(I, obj, name):
             return 1
         if name == "dtype":
             return Opaque("dtype")
+    if isinstance(obj, bool) or (isinstance(obj, Sym) and obj.kind == "bool"):
+        if name in ("all", "any", "item", "copy"):
+            return N(lambda ctx, *a, **k: obj)  # numpy bool_ scalar methods
     if isinstance(obj, (set, frozenset)):
         if name == "add":
             return N(lambda ctx, x: obj.add(I.hashable(x)))
